@@ -117,8 +117,27 @@ func Time(t time.Time) *time.Time {
 	return &t
 }
 
+// Params renders the parameters so that parsing the result again yields the same
+// parameters: a value that is empty or contains white space, a quote or a
+// back-tick is written as a quoted value.
 func Params(params []string) string {
-	return strings.Join(params, " ")
+	quoted := make([]string, len(params))
+	for i, p := range params {
+		quoted[i] = quoteParam(p)
+	}
+	return strings.Join(quoted, " ")
+}
+
+func quoteParam(p string) string {
+	name, value := "", p
+	if i := strings.Index(p, "="); i > 0 && !strings.ContainsAny(p[:i], " \t\n\r\f\"") {
+		name, value = p[:i+1], p[i+1:]
+	}
+	if value != "" && !strings.ContainsAny(value, " \t\n\r\f\"`") &&
+		(name != "" || !strings.Contains(value, "=")) {
+		return p
+	}
+	return name + `"` + strings.ReplaceAll(value, `"`, `\"`) + `"`
 }
 
 type PID int
